@@ -181,7 +181,7 @@ def split_runs(trace):
     return [(s, (starts[j + 1] if j + 1 < len(starts) else n)) for j, s in enumerate(starts)]
 
 
-def validate_batch(module, cfg, trace, label, max_violations=6, strict_budget=6, timeout=3600, lenient=True):
+def validate_batch(module, cfg, trace, label, max_violations=6, strict_budget=6, timeout=3600, lenient=True, max_divergences=None):
     """Strict validation of a whole batch in one JVM. Every rejected run is cut out and validated
     leniently on its own (violation if lenient rejects too, divergence otherwise) and the remainder
     is validated again. After `strict_budget` strict rejections the remainder is validated in
